@@ -343,7 +343,9 @@ theorem WFP_insertCol {a : ArrS} (h : WFP a) (pos qi : Nat) (L : LegS) (hL : L.o
     exact List.Pairwise.nil
 
 theorem WFP_addLeg {a b : ArrS} {leg : LegS} {i axis : Int} {nz : List Bool} (h : WFP a) (hL : leg.ok = true)
-    (hLm : leg.leg.mods = a.mods) (hb : a.addLeg leg i axis nz = some b) : WFP b := by
+    (hLm : leg.leg.mods = a.mods) (hb : a.addLeg leg i axis nz = some b) :
+    WFP b ∧ ∀ qi w, leg.leg.getQindex i = some (qi, w) →
+      b.qtotal = makeValid a.mods (cadd a.qtotal (leg.leg.getCharge qi)) := by
   unfold ArrS.addLeg at hb
   simp only at hb
   generalize (if axis < 0 then axis + (a.rank : Int) else axis) = ax at hb
@@ -374,6 +376,9 @@ theorem WFP_addLeg {a b : ArrS} {leg : LegS} {i axis : Int} {nz : List Bool} (h 
               intro hs
               have : a.qdata.map (insertAt pos qi) = [] := by simpa using hs
               rw [this]; rfl)
-          simpa [ArrS.reinsert, hm] using this
+          refine ⟨by simpa [ArrS.reinsert, hm] using this, ?_⟩
+          intro qi' w' h'
+          cases h'
+          simp [ArrS.reinsert, hm]
 
 end TenpyModel.C02P2
